@@ -424,6 +424,24 @@ pub fn cmd_run(id: &str, tier_name: &str) -> ExitCode {
     }
 
     let mut extra = json!({});
+    if id == "C06" {
+        // one real-kernel fault (ENOSPC from /dev/full) next to the simulated ones
+        match crate::c06::dev_full_check() {
+            Ok(v) => extra = json!({"real_kernel_fault": v}),
+            Err(e) if e.starts_with("cannot open") => extra = json!({"real_kernel_fault": {"skipped": e}}),
+            Err(e) => {
+                let path = format!("{VERIF}/replays/C06-devfull.json");
+                let doc = json!({"property": "C06", "engine": "iosim", "violation_class": e.split(':').next().unwrap_or(""), "violation_detail": e,
+                    "note": "real-kernel fault: StripStream<File> over /dev/full; re-run ./check C06 quick to reproduce",
+                    "trace": {"property": "C06", "surface": "strip_box", "input_hex": "", "ops": [], "faults": [], "params": []}});
+                let _ = std::fs::write(&path, serde_json::to_string_pretty(&doc).unwrap());
+                println!("violation {e}");
+                let _ = write_evidence(&meta, &tier, seed, &batch, 1, &known_hits, json!({}), vec![doc]);
+                println!("VIOLATION property=C06 replay={path}");
+                return ExitCode::from(1);
+            }
+        }
+    }
     if id == "C08" {
         // the Auto choice depends on the process environment: envsim part (see envsim.rs)
         let (_, hist) = env_budget(tier.name);
